@@ -7,6 +7,7 @@ from props_service import *  # C13 C14 C15 C16
 from props_ctxio import *    # C17 C18
 from props_client import *   # C11
 from props_e2e import *      # C02 C03 C12
+from props_tables import *   # C19 C20
 
 
 def replay(run, obj):
